@@ -5,9 +5,20 @@ ENGINES = [
 ]
 NOTES = ("Contract-based deductive verification; see DESIGN.md. Exit codes of ./check: 0 held, 1 violation "
          "(VIOLATION line), 2 undecided, 3 checker error.")
-CHECKS = []
+CHECKS = [
+    {"id": "C11", "level": "proof", "modules": ["contracts.C11_curve"], "bounded": [],
+     "technique": "deductive verification: sidecar contracts on the real source, VCs by symbolic execution (pyvc), z3",
+     "text": "Every claim of the statement (flat between the balance points, exact line / asymptote beyond them, monotone, "
+             "Lipschitz-continuous, loads non-negative, exclusive and additive) is a postcondition of DailyModel._predict_submodel "
+             "over all admissible coefficient vectors of all seven shapes and ALL real temperatures; the numba kernel full_model is "
+             "verified against its own contract (curve7) and used modularly. Obligations are generated from /repo's source text on every run.",
+     "note": "floats as reals (A1), numba==CPython on the subset (A2), exp replaced by axiom instances of the real exponential; "
+             "admissibility predicate adm(shape) is what C12 proves of fitted models; known finding C11-edge excluded by its witness class",
+     "not_covered": ["floating-point rounding of (m - c) + c in the additive identity", "coefficients outside adm(shape) (hand-written parameter files)"],
+     },
+]
 _NOT_BUILT = "machinery for this property is not built yet (see DESIGN.md §7 build order); not claimed"
-NOT_APPLICABLE = [{"property_id": f"C{n:02d}", "reason": _NOT_BUILT} for n in range(1, 21) if n != 15] + [
+NOT_APPLICABLE = [{"property_id": f"C{n:02d}", "reason": _NOT_BUILT} for n in range(1, 21) if n != 15 and f"C{n:02d}" not in {c["id"] for c in CHECKS}] + [
     {"property_id": "C15", "reason": "statistical accuracy bound on the output of a black-box non-convex optimiser over generated noisy data; no pre/postcondition on any function within reach expresses or decides it (DESIGN.md §4 C15)"},
 ]
 NOT_APPLICABLE.sort(key=lambda d: d["property_id"])
